@@ -2598,6 +2598,10 @@ def r12_24(rep):
         if r.get("k") == "Local" and r.get("id") == selfp:
             own.append(c)
     visits = [c for c in b.calls(lambda x: x["k"] == "MCall" and x["name"] == "visit") if strip(c["recv"]).get("id") == selfp]
+    # ... or the node visitor itself is applied to `*self` first (it examines referents)
+    for c in b.calls(lambda x: x["k"] == "Call" and (x.get("callee") or "").endswith("is_dependent_on_template_parameter::visitor")):
+        if any(y["k"] == "Local" and y["id"] == selfp for a_ in c["args"] for y in b.walk(a_)) and not any(a["k"] == "Closure" for a in b.ancestors(c)):
+            own.append(c)
     ok = bool(own) and bool(visits) and min(c["_i"] for c in own) < min(c["_i"] for c in visits)
     vis = prog.fn("clang::Cursor::is_dependent_on_template_parameter::visitor")
     if rep.check(vis is not None, "visitor-found", "the child visitor of is_dependent_on_template_parameter", b.loc(b.root)):
